@@ -61,6 +61,12 @@ def tool_surfaces(ctx, texts):
                 r2 = loop.run_until_complete(ValidateTool().execute(content=c1, schema="META"))
                 if r2.get("status") != "success" or r2.get("canonical") != c1:
                     yield ("octave_validate", x, c1, r2.get("canonical"))
+                # the canonical text must stay readable by the write tool (strict mode is its default)
+                pc = os.path.join(d, f"c{i}.oct.md")
+                w0 = loop.run_until_complete(WriteTool().execute(target_path=pc, content=c1))
+                ctx.count()
+                if w0.get("status") != "success" and doccases.strict_read(c1)[1] is None:
+                    yield ("octave_write(content=canonical)", x, c1, json.dumps(w0.get("errors"), default=str)[:300])
             p = os.path.join(d, f"f{i}.oct.md")
             w1 = loop.run_until_complete(WriteTool().execute(target_path=p, content=x))
             ctx.count()
@@ -152,7 +158,9 @@ def run(ctx):
         st, detail, cc, doc = check_text(x)
         fids = attribute(ctx, hm, doc) if doc is not None else []
         case = {"surface": surface, "input": x, "first": c1, "second": c2}
-        if surface == "octave_write+normalize" and cc is not None and "\r" in cc and st is None:
+        if surface == "octave_write(content=canonical)" and c1.startswith("---\n") and "E_TOKENIZE" in (c2 or ""):
+            ctx.property_failure(case, f"{surface}: canonical text refused", finding=PFX + "write-strict-frontmatter")
+        elif surface == "octave_write+normalize" and cc is not None and "\r" in cc and st is None:
             ctx.property_failure(case, f"{surface}: canonical output not stable", finding=PFX + "cr-through-file")
         elif fids and st is not None:
             for f in fids:
